@@ -44,11 +44,11 @@ def h_single(B, cls="EOF", n=4, p=2, k=2, flags=None, weights=False, layout="2d"
     B.eq("transform(X_fit)==scores()", tr, sc)
 
 
-def h_cross(B, cls="CPCCA", n=4, p=2, q=2, k=2, alpha=1.0, use_pca=False, flags=None, rot=None, normalized=False):
+def h_cross(B, cls="CPCCA", n=4, p=2, q=2, k=2, alpha=1.0, use_pca=False, flags=None, rot=None, normalized=False, cplx=False):
     flags = dict(flags or {})
-    X = da2d(B, "x", n, p, feat="x")
-    Y = da2d(B, "y", n, q, feat="y")
-    model = M.cross(cls, n_modes=k, alpha=alpha, use_pca=use_pca, **flags)
+    X = da2d(B, "x", n, p, cplx, feat="x")
+    Y = da2d(B, "y", n, q, cplx, feat="y")
+    model = M.cross(cls, n_modes=k, alpha=alpha, use_pca=use_pca, n_pca_modes="all", **flags)
     model.fit(X, Y, "time")
     if rot:
         model = M.rotate_cross(model, **rot)
@@ -65,7 +65,7 @@ def h_multi(B, n=4, ps=(2, 2), k=2):
     import xeofs.multi as xm
 
     Xs = [da2d(B, f"x{i}", n, p, feat=f"f{i}") for i, p in enumerate(ps)]
-    model = xm.CCA(n_modes=k, use_pca=False)
+    model = xm.CCA(n_modes=k, pca=False)
     model.fit(Xs, "time")
     B.covers("multi.CCA.fit", "multi.CCA.transform")
     tr = B.completes("multi.CCA.transform(views) runs", lambda: model.transform(Xs))
@@ -100,4 +100,24 @@ def configs(tier):
             if tier == "thorough":
                 add("h_single", f"{cls}Rotator|power{power}|k3", cls=cls, n=5, p=3, k=3, rot={"n_modes": 3, "power": power})
         add("h_single", f"{cls}Rotator|power1|normalized", cls=cls, n=4, p=3, k=2, rot={"n_modes": 2, "power": 1}, normalized=True)
+    # cross-set family
+    alphas = [1.0, 0.5, 0.0]
+    for alpha in alphas:
+        for use_pca in (False, True):
+            add("h_cross", f"CPCCA|alpha={alpha}|pca={int(use_pca)}", cls="CPCCA", n=4, p=2, q=2, k=2, alpha=alpha, use_pca=use_pca)
+    add("h_cross", "CPCCA|alpha=[0.5,1.0]|p3q2", cls="CPCCA", n=5, p=3, q=2, k=2, alpha=[0.5, 1.0], use_pca=False)
+    add("h_cross", "CPCCA|alpha=0.5|normalized", cls="CPCCA", n=4, p=2, q=2, k=2, alpha=0.5, use_pca=False, normalized=True)
+    for cls in ("MCA", "CCA", "RDA"):
+        add("h_cross", f"{cls}|pca=0", cls=cls, n=4, p=2, q=2, k=2, use_pca=False)
+        if tier == "thorough":
+            add("h_cross", f"{cls}|pca=1|p3", cls=cls, n=5, p=3, q=2, k=2, use_pca=True)
+    add("h_cross", "ComplexCPCCA|alpha=0.5", cls="ComplexCPCCA", n=4, p=2, q=2, k=2, alpha=0.5, use_pca=False, cplx=True)
+    add("h_cross", "ComplexMCA", cls="ComplexMCA", n=4, p=2, q=2, k=2, use_pca=False, cplx=True)
+    # cross-set rotators
+    for alpha in alphas:
+        for power in (1, 2):
+            add("h_cross", f"CPCCARotator|alpha={alpha}|power{power}", cls="CPCCA", n=4, p=2, q=2, k=2, alpha=alpha, use_pca=False, rot={"n_modes": 2, "power": power})
+    add("h_cross", "MCARotator|power1", cls="MCA", n=4, p=2, q=2, k=2, use_pca=False, rot={"n_modes": 2, "power": 1})
+    add("h_cross", "CPCCARotator|alpha=0.5|pca=1", cls="CPCCA", n=4, p=2, q=2, k=2, alpha=0.5, use_pca=True, rot={"n_modes": 2, "power": 1})
+    # multi-set CCA: see DESIGN.md (dask block matrices + generalised eigh; not encoded yet)
     return out
